@@ -44,8 +44,6 @@ B3_ANCHOR = re.compile(r'^(adlt::lifecycle::|<adlt::lifecycle::|adlt::utils::buf
 B3_LEDGER = {
     ('adlt::lifecycle::Lifecycle::resume_time', 'Add((*self).start_time, (*self).min_timestamp_us)', '_tmp'): 'subtrahend is 0 or start_time - resume_lc.start_time (taken only if resume_lc.start_time < start_time), hence <= start_time <= start_time + min_timestamp_us',
     ('adlt::lifecycle::parse_lifecycles_buffered_from_stream', '(*lc).max_timestamp_us', '(*lc).min_timestamp_us'): 'struct invariant min_timestamp_us <= max_timestamp_us of live lifecycles (new sets both equal, update only lowers min / raises max)',
-    ('adlt::lifecycle::parse_lifecycles_buffered_from_stream', 'nr_lcs_to_update', '1'): 'counter starts at buffered_lcs.len(), decremented once per distinct member found, loop breaks at 0',
-    ('adlt::lifecycle::parse_lifecycles_buffered_from_stream::{closure#1}', 'nr_lcs_to_update', '1'): 'counter starts at lcs_to_refresh.len() (unique ids), decremented once per id found, loop breaks at 0',
     ('adlt::utils::buffer_sort_messages::{closure#1}', '(*(*arg1).windows_size_secs)', '1'): 'configuration: window size parameter (callers pass >= 1)',
     ('adlt::utils::buffer_sort_messages::{closure#1}::{closure#2}', '(*(*arg1).windows_size_secs)', '1'): 'configuration: window size parameter (callers pass >= 1)',
 }
@@ -288,8 +286,8 @@ def phi_bounded(cfg, E, body, a, b, blk=None):
         if si == 'call':
             return None
         e = E.rvalue(d.rv)
-        if e == ('const', 0):
-            continue
+        if e == ('const', 0) or e == a:
+            continue        # b = 0 or b = a itself: a - b cannot underflow
         ok = False
         for (c, truth, D) in guards.known(cfg, E, bi):
             c2, t2 = guards.normalise(c, truth) if truth in (True, False) else (c, truth)
@@ -298,6 +296,85 @@ def phi_bounded(cfg, E, body, a, b, blk=None):
         if not ok:
             return None
     return 'every definition of %s is 0 or a value guarded to be <= %s' % (b[1], show(a)[:40])
+
+
+def _is_copy_of(cfg, o, x, bi):
+    """operand is local x, or a temp copied from x in the same block bi"""
+    if o.place is None or not o.place.is_local:
+        return False
+    if o.place.l == x:
+        return True
+    sd = cfg.single_def(o.place.l)
+    if sd is None or sd[1] == 'call' or sd[0] != bi or sd[2].rv['k'] != 'use':
+        return False
+    src = Operand(sd[2].rv['o'])
+    return src.place is not None and src.place.is_local and src.place.l == x
+
+
+def counter_tested_nonzero(cfg, E, body, blk):
+    """`x - 1` where x is a plain local counter: discharged when on every path to the subtraction the most recent test of x
+    since its last write was `x != 0` (false edge of `x == 0`, true edge of `x != 0` / `x > 0`).  Path exploration with one
+    fact that assignments to x kill."""
+    from paths import Explorer
+    a = Operand(blk.term.d['ops'][0])
+    k = fold(E.operand(Operand(blk.term.d['ops'][1])))
+    if k != 1 or a.place is None or not a.place.is_local:
+        return None
+    x = a.place.l
+    if body.name_of(x) is None:
+        sd = cfg.single_def(x)
+        if sd is None or sd[1] == 'call' or sd[2].rv['k'] != 'use':
+            return None
+        o = Operand(sd[2].rv['o'])
+        if o.place is None or not o.place.is_local:
+            return None
+        x = o.place.l
+    writes = set()
+    for b2 in body.blocks:
+        if b2.cleanup:
+            continue
+        if any(s.k == 'assign' and s.place.is_local and s.place.l == x for s in b2.stmts):
+            writes.add(b2.i)
+        if b2.term.k == 'call' and b2.term.dest is not None and b2.term.dest.is_local and b2.term.dest.l == x:
+            writes.add(b2.i)
+    tests = {}
+    for b2 in body.blocks:
+        if b2.cleanup or b2.term.k != 'switch':
+            continue
+        o = Operand(b2.term.d['d'])
+        if o.place is None or not o.place.is_local:
+            continue
+        sd = cfg.single_def(o.place.l)
+        if sd is None or sd[1] == 'call' or sd[0] != b2.i or sd[2].rv['k'] != 'bin':
+            continue
+        rv = sd[2].rv
+        oa, ob = Operand(rv['a']), Operand(rv['b'])
+        if _is_copy_of(cfg, oa, x, b2.i) and ob.is_const and ob.value == 0 and rv['op'] in ('Eq', 'Ne', 'Gt'):
+            tests[b2.i] = rv['op']
+    if not tests:
+        return None
+
+    def block_effect(b2, facts):
+        if b2.i in writes:
+            return frozenset(f for f in facts if f != ('nz',))
+        return facts
+
+    def edge_effect(b2, tgt, facts):
+        op = tests.get(b2.i)
+        if op is None:
+            return facts
+        zero_edge = [t for v, t in b2.term.d['vals'] if v == 0]
+        is_false_edge = tgt in zero_edge
+        nz = is_false_edge if op == 'Eq' else (not is_false_edge)
+        if nz:
+            return frozenset(facts | {('nz',)})
+        return frozenset(f for f in facts if f != ('nz',))
+    ex = Explorer(cfg, block_effect=block_effect, edge_effect=edge_effect, var_roots=set())
+    ex.run()
+    sts = ex.states.get(blk.i, ())
+    if sts and all(('nz',) in st[1] for st in sts):
+        return 'counter `%s` was tested non-zero on every path since its last write (%d path states)' % (body.name_of(x) or '_%d' % x, len(sts))
+    return None
 
 
 def check_b3(lib, B3):
@@ -326,6 +403,8 @@ def check_b3(lib, B3):
                 why = clamp_before(cfg, E, b, blk, a, bb)
             if why is None:
                 why = phi_bounded(cfg, E, b, a, bb, blk)
+            if why is None:
+                why = counter_tested_nonzero(cfg, E, b, blk)
             key = (b.path, re.sub(r'_\d+', '_tmp', show(a)[:60]), re.sub(r'_\d+', '_tmp', show(bb)[:60]))
             if why is None and key in B3_LEDGER:
                 why = 'ledger: ' + B3_LEDGER[key]
